@@ -246,6 +246,24 @@ impl<'tcx> Cx<'tcx> {
         o(vec![("l", J::N(p.local.as_u32() as i64)), ("p", J::A(proj)), ("s", s(txt)), ("ty", s(self.ty_s(ty.ty)))])
     }
 
+    fn byte_literal(&self, sc: &rustc_middle::mir::interpret::Scalar, t: Ty<'tcx>) -> Option<Vec<u8>> {
+        let ty::Ref(_, inner, _) = t.kind() else { return None };
+        let ty::Array(elem, len) = inner.kind() else { return None };
+        if *elem != self.tcx.types.u8 {
+            return None;
+        }
+        let n = len.try_to_target_usize(self.tcx)? as usize;
+        let rustc_middle::mir::interpret::Scalar::Ptr(ptr, _) = sc else { return None };
+        let (prov, off) = ptr.prov_and_relative_offset();
+        let rustc_middle::mir::interpret::GlobalAlloc::Memory(alloc) = self.tcx.global_alloc(prov.alloc_id()) else { return None };
+        let start = off.bytes() as usize;
+        let a = alloc.inner();
+        if start + n > a.len() {
+            return None;
+        }
+        Some(a.inspect_with_uninit_and_ptr_outside_interpreter(start..start + n).to_vec())
+    }
+
     fn val(&self, v: &ConstValue, t: Ty<'tcx>) -> J {
         match v {
             ConstValue::Scalar(sc) => match sc.try_to_scalar_int() {
@@ -256,7 +274,16 @@ impl<'tcx> Cx<'tcx> {
                         o(vec![("int", s(format!("{}", i.to_bits_unchecked()))), ("ty", s(self.ty_s(t)))])
                     }
                 }
-                Err(_) => o(vec![("ptr", s(self.ty_s(t)))]),
+                Err(_) => {
+                    // pointer to a byte-string literal `b".."` (&[u8; N]): export the bytes
+                    if let Some(b) = self.byte_literal(sc, t) {
+                        return match std::str::from_utf8(&b) {
+                            Ok(st) => o(vec![("str", s(st)), ("bytes_lit", J::B(true))]),
+                            Err(_) => o(vec![("bytes", s(format!("{:?}", b)))]),
+                        };
+                    }
+                    o(vec![("ptr", s(self.ty_s(t)))])
+                }
             },
             ConstValue::ZeroSized => {
                 if let ty::FnDef(d, a) = t.kind() {
